@@ -61,6 +61,7 @@ func init() {
 			c.Clause("C18-D2/D3/D4")
 			ruleBridgeIDs(c)
 			ruleParseRequestsNormalisesID(c)
+			ruleMixedFieldsRejected(c)
 			ruleBridgeParsesWholeBody(c)
 			ruleConstantFormats(c)
 			if d := dispatchOrUndecided(c, "ROLE.dispatch"); d != nil {
